@@ -1225,6 +1225,24 @@ def gen_seq_hidden(caps=(2, 3), depth=3, flavs=("ss", "aa")):
                         yield seq_program(items, cap, flav, ["w1", "b3", "u8"][n % 3])
 
 
+def gen_seq_fill(ns=(31, 32, 33, 63, 64, 65), caps=(None, 70)):
+    """Single-threaded long histories: N values are buffered (N around the sizes at which an unbounded channel's ring buffer
+    grows), then every send variant is called once, then observers and a drain: an unbounded channel (and a bounded one with
+    room) never refuses."""
+    SV = [{"op": "try_send", "h": 0}, {"op": "try_send_option", "h": 0}, {"op": "try_send_realtime", "h": 0}, {"op": "try_send_option_realtime", "h": 0},
+          {"op": "send_timeout", "h": 0, "d": 0}, {"op": "send_option_timeout", "h": 0, "d": 0}, {"op": "send", "h": 0}]
+    k = 0
+    for cap in caps:
+        for n in ns:
+            for first in range(len(SV)):
+                k += 1
+                items = [[dict(SV[(j + first) % 4], m=0)] for j in range(n)]
+                items += [[dict(SV[(first + j) % len(SV)], m=0)] for j in range(len(SV))]
+                items += [[{"op": "len", "h": 0}], [{"op": "is_full", "h": 0}], [{"op": "drain_into", "h": 1, "pre": 0, "spare": 0}], [{"op": "len", "h": 1}],
+                          [{"op": "try_recv", "h": 1}]]
+                yield seq_program(items, cap, ["ss", "aa"][k % 2], ["w1", "b3", "u8"][k % 3])
+
+
 HANDLE_MUT = ["clone", "clone_sync", "clone_async", "to_sync", "to_async", "drop", "drop_old"]
 
 
